@@ -76,6 +76,9 @@ impl TlsClientHelloReader {
                 "First byte is not TLS Handshake (0x16), got 0x{:02x}. Might be continuation data.",
                 content_type
             );
+            // A record that is not a handshake can never become a ClientHello: drop it
+            // instead of accumulating the rest of the stream behind it.
+            self.buffer.clear();
             return Ok(None);
         }
 
